@@ -667,6 +667,15 @@ func c02Whitespace(push bool) *Scenario {
 					c02Explore(r, []byte(rec), push, false)
 				}
 			}
+			// characters that Go (unicode.IsSpace, bytes.TrimSpace) treats as space but JSON does not: with one of
+			// them before or after the envelope the record is not JSON
+			for _, ns := range []string{"\v", "\f", "\u0085", "\u00a0", "\u2028", "\u3000", "\ufeff", "\x00"} {
+				for _, o := range objs[:2] {
+					for _, rec := range []string{ns + o, o + ns, ns + "[" + o + "]", "[" + o + "]" + ns, "[" + ns + o + "]", ns} {
+						c02Explore(r, []byte(rec), push, false)
+					}
+				}
+			}
 			r.Sample(map[string]any{"record": "\r\n[ {\"jsonrpc\":\"2.0\",\"id\":1,\"method\":\"ok\"} ]\r\n", "push": push})
 		},
 	}
